@@ -476,7 +476,7 @@ class NetWorld(World):
                     "radius": self._gen_radius(r), "tcost": r.choice([1, 10])}
         if (s, slot) in self.tracks and r.random() < 0.35:
             return {"op": "remap", "s": s, "slot": slot, "noise": r.choice([1, 10, 50]),
-                    "radius": self._gen_radius(r), "tcost": r.choice([1, 10])}
+                    "radius": self._gen_radius(r), "tcost": r.choice([1, 10]), "note": r.random() < 0.4}
         st = {"op": "map", "s": s, "slot": slot, "obs": self._gen_track(r, m), "noise": r.choice([1, 10, 50]),
               "z": self.cfg.get("alt", 0.0) if r.random() < 0.7 else 0.0, "tmode": self.cfg.get("tmode", "inc"),
               "radius": self._gen_radius(r), "tcost": r.choice([1, 10]), "coll": r.random() < 0.3,
@@ -1806,6 +1806,11 @@ class NetWorld(World):
         if again:
             tr = self.tracks[key]["real"]
             self.probe("second_mapping_of_the_same_track")
+            if st.get("note") and not tr.hasAnalyticalFeature("note"):
+                # between the two matchings the owner of the track stores a feature of his own on it
+                _, exc0 = self.call(tr.createAnalyticalFeature, "note", 1.5)
+                if exc0 is None:
+                    self.probe("feature_created_between_two_matchings")
         else:
             z = st.get("z", 0.0)
             if z:
@@ -1861,7 +1866,12 @@ class NetWorld(World):
             if fired:
                 self.stats["fault_fired:" + fault["kind"]] += 1
                 for k2 in [k2 for k2, v in self.tracks.items() if any(v["real"] is g for g, _ in group)]:
-                    del self.tracks[k2]          # the half-processed tracks are thrown away
+                    if fault["kind"] == "interrupt" and st.get("s", 0) % 2 == 0 and len(obs) % 2 == 0:
+                        # the user keeps the track and will match it again (its states are not looked at meanwhile)
+                        self.tracks[k2].pop("radius", None)
+                        self.probe("track_of_an_interrupted_matching_kept_for_a_retry")
+                    else:
+                        del self.tracks[k2]          # the half-processed tracks are thrown away
                 self.probe("interrupted_map_matching" if fault["kind"] == "interrupt" else
                            "map_matching_failed_on_its_debug_file")
                 if exc is None:
